@@ -50,6 +50,9 @@ CHECKS = {
     "C04": dict(lim=True, cat="other", tech="static analysis: guard cross-check between sibling identifier producers (reserved-word and uniqueness guards on every path to an identifier slot)", ref="DESIGN.md section 4 C04",
                 text="Partial: field identifiers reach their template slots only through to_valid_key and a single reservation list that records a name only when not yet contained (holds); struct identifiers are demanded the same and fail both guards - two known findings confirmed on the real code (reserved/prelude names, duplicate struct names); header slot and field-type slot of a child are the same function of the same trace; every emitted line is one of the output grammar's templates written out exactly; the identifier map covers every child and attribute and is read back under the key it was stored with; every element gets a name hint >= 1. Not decided: sufficiency of the guards for all names.",
                 note=TB + "convert_string::to_valid_key yields a legal non-keyword identifier."),
+    "C14": dict(lim=True, cat="other", tech="static analysis: shape and dataflow rules over the MIR of the struct-name mechanism (trace stack discipline, suffix slice of the ancestor trace, hint table totality, single-position shortcut)", ref="DESIGN.md section 4 C14",
+                text="Partial: does NOT decide the string values (PascalCase form is a dependency's), nor that ancestors are used only when needed for names occurring at several positions (minimality of the separating length), nor the optional suffix. Decides the structural clauses, each a necessary condition: the root's struct is emitted first and child structs after their parent; header and field-type slots are the same producer over the same trace and hint table, the trace being the stack of the ancestors' formatted names in nesting order ending with the element's own; the producer returns the concatenation of a suffix of that trace whose length is the hint stored under the element's own formatted name (own name last, nearest ancestors contiguous before it); a name collected exactly once gets hint 1 (no qualification); every element has a hint >= 1.",
+                note=TB + "convert_string::to_pascal_case is trusted."),
     "C02": dict(lim=True, cat="other", tech="static analysis: constant-table agreement (preset constants from MIR vs key literals of the locked deserializer sources) + renderer use sets + output-template grammar + the C04 and C01 rule packs as necessary conditions", ref="DESIGN.md section 4 C13/C02, section 3 A8",
                 text="Partial, necessary conditions only: (a) binding-key agreement - the quick-xml preset's text identifier and attribute prefix are keys the locked quick-xml deserializer recognises, the default derive list names macros in scope incl. Deserialize, and the renderer binds text/attributes through exactly these fields; (b) the output-template grammar and the C04 identifier/struct-name rules (a duplicate or illegal name does not compile; C04's two known findings are listed for this property too); (c) the soundness-direction mechanism rules of C01 (a schema that does not admit a source document cannot deserialize it). Compilation, from_str success and deny_unknown_fields themselves are NOT decided (they need rustc and the deserializer to run).",
                 note=TB + "Registry sources of the version named in Cargo.lock are what generated code is compiled against."),
@@ -58,9 +61,7 @@ CHECKS = {
                 note=TB + "Registry sources of the version named in Cargo.lock."),
 }
 
-NA = {
-    "C14": "quantifies over the string values of generated names (PascalCase form, nearest-ancestor qualification, minimal disambiguation); the only structural facts in reach restate the implementation and realistic breakages (wrong ancestors, off-by-one in the hint) are invisible to shape rules - no sound static argument bounds the string semantics (DESIGN.md section 4 C14)",
-}
+NA = {}
 PENDING = "check under construction in this round (DESIGN.md section 8)"
 
 
